@@ -152,6 +152,11 @@ func (p *C07) Gen(seed uint64, i int, tier string) *scen.Scenario {
 			}
 			sc.Setup = append(sc.Setup, o)
 		}
+		if r.Chance(1, 8) {
+			// keys registered and dropped again
+			sc.Setup = append(sc.Setup, scen.Op{Op: "set", L: d, Kind: "ctxkeys", Keys: []scen.CtxKey{{Kind: "s", Name: g.key()}}},
+				scen.Op{Op: "set", L: d, Kind: "reset_ctxkeys"})
+		}
 		if r.Chance(1, 3) {
 			o := scen.Op{Op: "set", L: d, Kind: "ctxkeys"}
 			for k := r.Range(1, 3); k > 0; k-- {
@@ -317,6 +322,9 @@ func (p *C07) Check(sc *scen.Scenario, run *orch.Run, env *orch.Env) []orch.Viol
 			l.attrs = append(l.attrs, c07AttrsOf(op)...)
 			if op.Kind == "ctxkeys" {
 				l.ctxKeys = append(l.ctxKeys, op.Keys...)
+			}
+			if op.Kind == "reset_ctxkeys" {
+				l.ctxKeys = nil
 			}
 		case "add_flags", "remove_flags":
 			for _, f := range op.S {
